@@ -72,13 +72,14 @@ def check_call(sizer, dh, equity, lev, rate, ws, ps):
 
 
 def group(item):
+    """One (equity, leverage, rate, price vector): every weight vector, in order, on ONE sizer object."""
     from qstrader.portcon.order_sizer.long_short import LongShortLeveragedOrderSizer
-    equity, lev, rate, ws = item
+    equity, lev, rate, ps = item
     dh = PriceStub()
     broker = make_broker(equity, rate, dh)
     sizer = LongShortLeveragedOrderSizer(broker, 'p', dh, gross_leverage=float(fw(lev)))
     viols, amb, n, outs, nz = [], 0, 0, set(), 0
-    for ps in itertools.product(ASKS, repeat=len(ws)):
+    for ws in itertools.product(WEIGHTS, repeat=len(ps)):
         f, a, oc = check_call(sizer, dh, equity, lev, rate, ws, ps)
         n += 1
         amb += a
@@ -91,7 +92,7 @@ def group(item):
             break
     return {'viols': viols[:10], 'execs': n, 'evals': n, 'ambiguous': amb, 'nontrivial': nz > 0,
             'outcome': (item, tuple(sorted(outs))), 'counters': {'calls_with_short_target': nz},
-            'sample': {'equity': equity, 'leverage': lev, 'fee_rate': rate, 'weights': list(ws),
+            'sample': {'equity': equity, 'leverage': lev, 'fee_rate': rate, 'asks': list(ps),
                        'distinct_targets': len(outs)}}
 
 
@@ -138,8 +139,8 @@ def items(tier):
         for lev in LEVERAGES:
             for rate in RATES:
                 for n in sizes:
-                    for ws in itertools.product(WEIGHTS, repeat=n):
-                        out.append((equity, lev, rate, ws))
+                    for ps in itertools.product(ASKS, repeat=n):
+                        out.append((equity, lev, rate, ps))
     return out
 
 
